@@ -52,6 +52,15 @@ CHECKS["C09"] = dict(level="exploration", design="5 C09",
    note="The operators are exercised directly (the planner composes exactly these for ORDER BY / LIMIT / OFFSET); row counts <= 3, key lists <= 2 (quick) or 3 (thorough).",
    technique="TLA+ definitions evaluated by TLC over an enumerated case space, replayed on the real code")
 
+CHECKS["C06"] = dict(level="model_checking", design="5 C06",
+   text="spec/TraceStore.tla (GroupedOK) states C06 over the specification's view of the table at the scan's start: the rows of one key are at least P apart, a row (k, T) holds exactly the native cells whose key projects to k and whose period end lies in (T-P, T], and every accepted point inside the window is covered by exactly one row; generated queries (dimension subsets incl. none and the table's own key, period multiples 1 2 3 5 7 incl. non-divisors of and periods larger than the window, field lists incl. a ratio f/_points) are run on the real database over gate-built storage states (memstore, disk, split) and their decoded rows are bound to that predicate by trace validation; the ratio column is recomputed from the returned components.",
+   note="The predicate is stated relative to the timestamps of the rows actually returned, so it does not depend on how the code anchors coarse periods. Bag-of-ids decoding makes 'which points are in which output row' observable; AVG-like values are covered by the ratio field and by C01/C05.",
+   technique="TLA+ trace validation (TLC) of generated grouped queries against the specification's view")
+CHECKS["C07"] = dict(level="model_checking", design="5 C07",
+   text="The same binding as C06 with time ranges: for every generated (asOf, until) pair (absolute and relative to the virtual clock, at tick granularity against tables of resolution 1 and 2 ticks, inside, outside and straddling the stored data, alone and combined with grouping and period multiples) every stored period lying wholly inside (asOf, until] must be returned with the bag the unbounded view has for it, no period lying wholly outside may be returned, and a period straddling a bound may go either way; without a range the window is (now - retention, now] with one resolution of slack at its lower end.",
+   note="ASOF '0s' (a zero offset) is treated by the parser as 'not given' and is not generated. Queries that fail (asOf before the table's window) are not judged. Retention is a multiple of the resolution in the tables used (see DESIGN.md observation O3).",
+   technique="TLA+ trace validation (TLC) of generated time-ranged queries against the specification's view")
+
 NOT_YET = {}
 
 
